@@ -199,14 +199,14 @@ pub fn property(tier: Tier) -> Property {
         let mut cfg = MixedCfg::for_lang(LangId::Core);
         cfg.max_ops = tier.pick(12, 20);
         cfg.hist.namings = crate::tm::Naming::diverse();
-        cfg.hist.gen.ops = Some(vec!["v", "f2", "g3", "c0", "w", "w", "w", "p", "lam"]);
+        cfg.hist.gen.ops = Some(vec!["v", "f2", "g3", "c0", "c0", "w", "w", "w", "p", "p", "lam"]);
         stages.push(Box::new(Stage {
             name: "long-core-modify-hook",
             source: random(move || mixed_strategy(cfg.clone()), tier.pick(2500, 50_000)),
             run: run_modify,
             panic_is_violation: true,
             render: |c: &Mixed| c.render(),
-            rule: "as long-core, on e-graphs with an analysis whose modify hook asserts w(w(x)) = x by a union of its own: the class an insertion creates is merged into an older class with slots during that very insertion, so the invocation the insertion returns is an old handle from the start",
+            rule: "as long-core, on e-graphs with an analysis whose modify hook asserts w(w(x)) = x and (p x c0) = c0 by unions of its own: the class an insertion creates is merged into an older class with slots during that very insertion, so the invocation the insertion returns is an old handle from the start",
             case_timeout_s: tier.pick(30, 120),
             exhaustive: false,
         }));
